@@ -21,13 +21,23 @@ parts.append("### 10.4 Seeded changes: which checks catch which\n")
 parts.append("Each change was written by a fresh sub-agent that saw only the property text and a scratch worktree "
              "(nothing from /verif), confirmed by the lead (demo fails with the change, passes without; relevant existing tests pass), "
              "and evaluated with `tools/try_seed.sh`. Kept under `seeded/<name>/` (patch.diff, demo, logs, meta.json).\n")
-parts.append("| seed | property | change | needs | result |\n|---|---|---|---|---|")
+parts.append("The last column is the final validation (`tools/final_validate.sh`): the patch REALLY applied to /repo with "
+             "`git apply`, the property's quick check run, the patch undone with `git checkout -- .` - the signatures the checks "
+             "print NOW (at most two shown).\n")
+parts.append("| seed | property | change | needs | result when first tried | reported now (final validation) |\n|---|---|---|---|---|---|")
 sd = os.path.join(V, "seeded")
+final = {}
+fv = os.path.join(sd, "final_validation.log")
+if os.path.exists(fv):
+    for ln in open(fv):
+        if ":" in ln and ln.startswith("C"):
+            k, _, v = ln.partition(":")
+            final[k.strip()] = re.sub(r"-[0-9a-f]{10}\.json", "", v.strip()).replace("VIOLATION property=", "").replace("|", "/")
 for name in sorted(os.listdir(sd)):
     m = os.path.join(sd, name, "meta.json")
     if os.path.exists(m):
         d = json.load(open(m))
-        parts.append(f"| {name} | {d['breaks']} | {d['what']} | {d['needs']} | {'caught: ' if d['detected'] else '**missed at first**: '}{d['caught_by']} |")
+        parts.append(f"| {name} | {d['breaks']} | {d['what']} | {d['needs']} | {'caught: ' if d['detected'] else '**missed at first**: '}{d['caught_by']} | {final.get(name, '(final validation not run yet)')} |")
 block = BEGIN + "\n" + "\n".join(parts) + "\n" + END
 if BEGIN in s:
     s = s[:s.index(BEGIN)] + block + s[s.index(END) + len(END):]
